@@ -458,7 +458,8 @@ class BaseModelCrossSet(BaseModel):
         # Inverse transform Y
         Y = self.whitener2.inverse_transform_scores_unseen(Y)
         Y = self.pca2.inverse_transform_scores_unseen(Y)
-        Y = self.preprocessor2.inverse_transform_scores_unseen(Y)
+        # The predicted scores are labelled by the samples of X
+        Y = self.preprocessor1.inverse_transform_scores_unseen(Y)
 
         return Y
 
